@@ -76,11 +76,16 @@ Pushes  == [ p2pkh |-> 1, p2pk |-> 1, multisig |-> 2, nulldata |-> 1, nopush |->
 Classes == DOMAIN Pushes
 \* an output of the case: class and which push (0: none) was put into the filter
 OutOpts == { [class |-> cl, hit |-> h] : cl \in Classes, h \in 0..2 } \ { o \in [class : Classes, hit : 0..2] : o.hit > Pushes[o.class] }
-OutLists == {<< >>} \cup { <<a>> : a \in OutOpts } \cup { <<a, b>> : a \in OutOpts, b \in OutOpts }
+\* second outputs of the quick tier: one matching output per update class, one that cannot match
+OutSecond == IF Thorough THEN OutOpts
+             ELSE { [class |-> "p2pkh", hit |-> 1], [class |-> "p2pk", hit |-> 1], [class |-> "multisig", hit |-> 2],
+                    [class |-> "nopush", hit |-> 0] }
+OutLists == {<< >>} \cup { <<a>> : a \in OutOpts } \cup { <<a, b>> : a \in OutOpts, b \in OutSecond }
 \* inputs: [op, push] = was the spent outpoint / a signature-script push put into the filter
 InOpts  == { [op |-> a, push |-> b] : a \in BOOLEAN, b \in BOOLEAN }
 InLists == { <<i>> : i \in InOpts }
-           \cup { <<[op |-> FALSE, push |-> FALSE], i>> : i \in InOpts \ {[op |-> FALSE, push |-> FALSE]} }
+           \cup { <<[op |-> FALSE, push |-> FALSE], i>> :
+                    i \in IF Thorough THEN InOpts \ {[op |-> FALSE, push |-> FALSE]} ELSE {[op |-> TRUE, push |-> FALSE]} }
 
 \* the table
 TxTable(c) ==
